@@ -103,7 +103,7 @@ pub fn trace_from_stream(text: &str) -> Option<Trace> {
             "O " => {
                 if let (Ok(op), Some(last)) = (serde_json::from_str::<Op>(rest), events.last_mut()) {
                     match last {
-                        Event::Mutate { ops, .. } | Event::NewArena { ops, .. } | Event::Collect { then: MarkedAction::Finalize(ops), .. } => ops.push(op),
+                        Event::Mutate { ops, .. } | Event::NewArena { ops, .. } | Event::Rootless { ops, .. } | Event::Collect { then: MarkedAction::Finalize(ops), .. } => ops.push(op),
                         _ => {}
                     }
                 }
